@@ -48,7 +48,7 @@ func TestGatedStatFault(t *testing.T) {
 		if err != nil {
 			t.Fatalf("harness: %v", err)
 		}
-		defer b.Close()
+		defer b.Release()
 		var refs []blob.Ref
 		for i := 0; i < n; i++ {
 			refs = append(refs, vgen.RefOf("sha224", []byte(fmt.Sprintf("gated-%d-%d", n, i))))
